@@ -125,6 +125,13 @@ def run_case(n, adj, root, rng, agree, draws, sigma_scale):
     # the index of the atom as a numpy integer (np.argmax, rng.integers, an element of np.arange): the same atom
     npi = move_mol_atom(pos, table, atom_index=(np.int64 if n % 2 else np.intp)(root - 1), displ=displ.copy(), sigma_scale=sigma_scale)
     intact = intact and bool(np.array_equal(npi, first))
+    # a configuration that is not a plain ndarray (a frame of a memory-mapped trajectory, an array subclass) is an input
+    # like any other: left as it was
+    class _Frame(np.ndarray):
+        pass
+    sub = pos.copy().view(_Frame)
+    subres = move_mol_atom(sub, table, atom_index=root - 1, displ=displ.copy(), sigma_scale=sigma_scale)
+    intact = intact and bool(np.array_equal(np.asarray(sub), keep)) and bool(np.array_equal(np.asarray(subres), first))
     other = move_mol_atom(pos, table, atom_index=root - 1, displ=displ * 2 + 0.0625, sigma_scale=sigma_scale)
     intact = intact and bool(np.array_equal(again, first)) and other is not again
     view = again[:]
